@@ -48,21 +48,22 @@ fn opt_vec_eq(a: &Option<Vec<u64>>, b: &Option<Vec<u64>>) -> bool {
 /// arbitrary rule value -> wire struct -> rule value: every field that matching, tag gating, id ordering or
 /// modifier consumers read is unchanged.
 fn rule_kernel(two_domains: bool) {
-    let m: u32 = kani::any();
-    let (has_mod, has_host, has_tag, has_raw): (bool, bool, bool, bool) = (kani::any(), kani::any(), kani::any(), kani::any());
-    let (cm, ch, ct, cr, cf): (u8, u8, u8, u8, u8) = (kani::any(), kani::any(), kani::any(), kani::any(), kani::any());
+    let mut dr = crate::verif_shim::Draw::new();
+    let m: u32 = dr.u32();
+    let (has_mod, has_host, has_tag, has_raw): (bool, bool, bool, bool) = (dr.bool(), dr.bool(), dr.bool(), dr.bool());
+    let (cm, ch, ct, cr, cf): (u8, u8, u8, u8, u8) = (dr.u8(), dr.u8(), dr.u8(), dr.u8(), dr.u8());
     kani::assume(cm < 0x80 && ch < 0x80 && ct < 0x80 && cr < 0x80 && cf < 0x80);
-    let fk: u8 = kani::any();
+    let fk: u8 = dr.u8();
     kani::assume(fk < 3);
-    let (nd, nn): (u8, u8) = (kani::any(), kani::any());
+    let (nd, nn): (u8, u8) = (dr.u8(), dr.u8());
     kani::assume(nd <= 2 && nn <= 2);
     if !two_domains {
         kani::assume(nd <= 1 && nn <= 1);
     }
-    let (d0, d1, n0, n1): (u64, u64, u64, u64) = (kani::any(), kani::any(), kani::any(), kani::any());
-    let (has_du, has_nu): (bool, bool) = (kani::any(), kani::any());
-    let (du, nu): (u64, u64) = (kani::any(), kani::any());
-    let id: u64 = kani::any();
+    let (d0, d1, n0, n1): (u64, u64, u64, u64) = (dr.u64(), dr.u64(), dr.u64(), dr.u64());
+    let (has_du, has_nu): (bool, bool) = (dr.bool(), dr.bool());
+    let (du, nu): (u64, u64) = (dr.u64(), dr.u64());
+    let id: u64 = dr.u64();
     let mk_part = |k: u8, c: u8| -> FilterPart {
         let mut s = String::new();
         s.push(c as char);
